@@ -194,6 +194,42 @@ Theorem c06_reached_iff_criterion_threshold :
 Proof. exact crit_threshold_proof. Qed.
 Print Assumptions c06_reached_iff_criterion_threshold.
 
+(* A FRACTIONAL count threshold t in (0,1) - THRESHOLD with threshold=t, and
+   EmergencyQuorum, whose emergency_threshold is one - is a share of the colony:
+   reached iff somebody permits and the permit votes are at least the share t of
+   ALL colony members (abstaining, deferring and failed members included in the
+   denominator), for every rational t and every colony size. *)
+Theorem c06_fraction_threshold_is_share_of_colony :
+  forall cfg votes t,
+    c_strategy cfg = ThresholdCount -> c_custom cfg = Some t -> 0 < t -> t < 1 ->
+    (is_reached (aggregate false cfg votes) = true <->
+     (c_min_voters cfg <= count_kind Permit votes + count_kind Block votes)%Z /\
+     (1 <= count_kind Permit votes)%Z /\
+     t <= inject_Z (count_kind Permit votes) / inject_Z (len votes)).
+Proof. exact fraction_share_proof. Qed.
+Print Assumptions c06_fraction_threshold_is_share_of_colony.
+
+Theorem c06_emergency_is_share_of_colony :
+  forall et votes,
+    0 < et -> et < 1 ->
+    (is_permit (aggregate false (emergency_cfg et) votes) = true <->
+     (1 <= count_kind Permit votes)%Z /\
+     et <= inject_Z (count_kind Permit votes) / inject_Z (len votes)).
+Proof. exact emergency_share_proof. Qed.
+Print Assumptions c06_emergency_is_share_of_colony.
+
+(* The head-count the share is converted to is the LEAST count >= 1 that covers
+   t * n: it is never one voter too low (PERMIT below the configured share) and
+   never one too high (a ballot that meets the share refused). *)
+Theorem c06_fraction_quota_is_least_cover :
+  forall t n,
+    0 < t -> t < 1 ->
+    let q := count_needed false (Some t) n in
+    (1 <= q)%Z /\ t * inject_Z n <= inject_Z q /\
+    (forall k, (1 <= k)%Z -> t * inject_Z n <= inject_Z k -> (q <= k)%Z).
+Proof. exact fraction_quota_least_proof. Qed.
+Print Assumptions c06_fraction_quota_is_least_cover.
+
 (* ---------------------------------------------------------------------- *)
 (* Monotonicity, every strategy: turning one voter's block into a permit (same
    weight and confidence) never loses PERMIT (so never turns it into BLOCK) *)
@@ -325,6 +361,20 @@ Theorem c06_history_threshold_uses_current_colony :
      count_criterion (c_custom (s_cfg s)) (len (s_colony s)) (count_kind Permit votes)).
 Proof. exact history_threshold_proof. Qed.
 Print Assumptions c06_history_threshold_uses_current_colony.
+
+(* lifted: a fractional threshold is a share of the CURRENT colony, whatever the
+   colony size was when the instance (or the threshold) was set up *)
+Theorem c06_history_fraction_threshold_is_share_of_current_colony :
+  forall st ops s sc o t,
+    In (s, sc, o) (trace false st ops) ->
+    c_strategy (s_cfg s) = ThresholdCount -> c_custom (s_cfg s) = Some t -> 0 < t -> t < 1 ->
+    let votes := collect (voters_of (s_colony s) sc) in
+    (is_reached o = true <->
+     (c_min_voters (s_cfg s) <= count_kind Permit votes + count_kind Block votes)%Z /\
+     (1 <= count_kind Permit votes)%Z /\
+     t <= inject_Z (count_kind Permit votes) / inject_Z (len (s_colony s))).
+Proof. exact history_fraction_share_proof. Qed.
+Print Assumptions c06_history_fraction_threshold_is_share_of_current_colony.
 
 (* lifted: a unanimous current colony is PERMIT at any point of any history *)
 Theorem c06_history_unanimous_PERMIT :
